@@ -673,3 +673,37 @@ def variant_edges(b, dj, type_needle, variant):
             if any(all(is_v(st, k) for st in sts) and not (before and all(is_v(st, k) for st in before)) for k in keys):
                 out.append((u, v))
     return out
+
+
+def const_int_of(facts, b, op, depth=0):
+    """integer constant an operand denotes, looking through references, copies and promoted constants (`&-1`); None if unknown"""
+    import re as _re
+    if depth > 8 or not op:
+        return None
+    if op[0] == "k":
+        if op[1] == "int":
+            try:
+                return int(op[3])
+            except Exception:
+                return None
+        if op[1] == "other" and "::promoted[" in str(op[3]):
+            m = _re.search(r"promoted\[(\d+)\]", str(op[3]))
+            base = b.path.split("::promoted[")[0]
+            pb = facts.body(base + "::promoted[%s]" % m.group(1)) if m else None
+            if pb is None and m:
+                cands = facts.find(_re.escape(base) + r"::promoted\[%s\]$" % m.group(1), include_promoted=True)
+                pb = cands[0] if cands else None
+            if pb is not None:
+                for bb in pb.live_blocks:
+                    for st in pb.stmts(bb):
+                        if st[0] == "A" and st[2][0] == "use" and st[2][1][0] == "k" and st[2][1][1] == "int":
+                            return int(st[2][1][3])
+        return None
+    sd = b.single_def(op[1][0])
+    if sd and sd[0] == "stmt":
+        rv = sd[3]
+        if rv[0] == "use":
+            return const_int_of(facts, b, rv[1], depth + 1)
+        if rv[0] in ("ref", "cfd", "addr"):
+            return const_int_of(facts, b, ["c", rv[-1]], depth + 1)
+    return None
